@@ -173,6 +173,7 @@ func (l *lexer) nextToken() token {
 			}
 			return tok
 		default:
+			verifLexStep(l)
 			l.lastState, l.state = l.state, l.state(l)
 		}
 	}
